@@ -439,7 +439,7 @@ func checkC18Positional(c *Ctx, n int) {
 		if dd && ddAt == k {
 			args = append(args, "--")
 		}
-		last := "g"
+		last := []string{"g", "g", "G", "Gr", "GRE"}[r.Intn(5)]
 		if withCmds {
 			last = []string{"g", "st", "sto", ""}[r.Intn(4)]
 		}
@@ -468,7 +468,7 @@ func checkC18Positional(c *Ctx, n int) {
 			want := []string{}
 			if kEff < m || hasRest {
 				for _, col := range []string{"blue", "green", "grey", "red"} {
-					if strings.HasPrefix(col, last) {
+					if strings.HasPrefix(col, asciiLower(last)) {
 						want = append(want, col)
 					}
 				}
@@ -512,7 +512,7 @@ func checkC18Values(c *Ctx, n int) {
 		for j := r.Intn(3); j > 0; j-- {
 			args = append(args, [][]string{{"-v"}, {"--name=x"}, {"-n", "x"}, {"--" + long + "=red"}, {"-" + short + "blue"}}[r.Intn(5)]...)
 		}
-		part := []string{"", "r", "g", "gr", "gre", "b", "z", "red", "R"}[r.Intn(9)]
+		part := []string{"", "r", "g", "gr", "gre", "b", "z", "red", "R", "GR", "Bl", "RED", "gRe"}[r.Intn(13)]
 		form := []string{"--name=V", "--name V", "-xV", "-x=V", "-x V"}[r.Intn(5)]
 		prefix := ""
 		switch form {
@@ -532,7 +532,7 @@ func checkC18Values(c *Ctx, n int) {
 		}
 		want := []string{}
 		for _, col := range colors {
-			if strings.HasPrefix(col, part) {
+			if strings.HasPrefix(col, asciiLower(part)) {
 				want = append(want, prefix+col)
 			}
 		}
